@@ -107,6 +107,39 @@ func protest(o *goja.Runtime, x interface{}) {
 	panic(o.ToValue(x))
 }
 
+// copyStructure copies maps and arrays (recursively) and returns
+// anything else as is.
+func copyStructure(x interface{}) interface{} {
+	switch vv := x.(type) {
+	case map[string]interface{}:
+		acc := make(map[string]interface{}, len(vv))
+		for p, v := range vv {
+			acc[p] = copyStructure(v)
+		}
+		return acc
+	case core.StepProps:
+		acc := make(map[string]interface{}, len(vv))
+		for p, v := range vv {
+			acc[p] = copyStructure(v)
+		}
+		return acc
+	case match.Bindings:
+		acc := make(map[string]interface{}, len(vv))
+		for p, v := range vv {
+			acc[p] = copyStructure(v)
+		}
+		return acc
+	case []interface{}:
+		acc := make([]interface{}, len(vv))
+		for i, v := range vv {
+			acc[i] = copyStructure(v)
+		}
+		return acc
+	default:
+		return x
+	}
+}
+
 func deepCopy(x interface{}) (interface{}, error) {
 	return core.Canonicalize(x)
 }
@@ -157,6 +190,14 @@ func (i *Interpreter) Exec(ctx context.Context, bs match.Bindings, props core.St
 		env["props"] = map[string]interface{}{}
 	} else {
 		env["props"] = map[string]interface{}(props.Copy())
+		// The copy above is shallow.  Also copy the maps and
+		// arrays inside, so that code cannot change the
+		// caller's props.  (Other values -- props can carry a
+		// context or a crew -- are passed as they are.)
+		ps := env["props"].(map[string]interface{})
+		for p, v := range ps {
+			ps[p] = copyStructure(v)
+		}
 	}
 
 	if bs != nil {
